@@ -173,20 +173,25 @@ impl<'a> G<'a> {
                     };
                     let b1 = self.inner_block(depth - 1, &inner, &mut out, &sc);
                     let sibling_leak = self.leak == Some(LeakPlan::Sibling) && !self.leak_done && self.rng.chance(1, 2);
+                    // the second arm may bind nothing: its uses of the name then mean the enclosing binder again
+                    let second_binds = self.rng.bool();
                     let b2 = if sibling_leak {
                         // first arm binds q (pattern), second arm uses it
                         self.leak_done = true;
                         self.leak_kind = "sibling-arm";
                         Expr::Block(vec![show(9002, "q")], Some(Box::new(Expr::Unit)))
-                    } else {
+                    } else if second_binds {
                         self.inner_block(depth - 1, &inner, &mut out, &sc)
+                    } else {
+                        let outer = sc.clone();
+                        self.inner_block(depth - 1, &outer, &mut out, &sc)
                     };
                     let p1 = if sibling_leak {
                         Pat::Constr { enum_name: "Sc".into(), variant: "P".into(), args: vec![Pat::Var(a.into()), Pat::Var("q".into())], qualified: true }
                     } else {
                         Pat::Constr { enum_name: "Sc".into(), variant: "P".into(), args: vec![Pat::Var(a.into()), Pat::Wild], qualified: true }
                     };
-                    out.push(discard(Expr::Match(Box::new(scrut), vec![(p1, b1), (Pat::Constr { enum_name: "Sc".into(), variant: "Q".into(), args: vec![Pat::Var(a.into())], qualified: true }, b2)])));
+                    out.push(discard(Expr::Match(Box::new(scrut), vec![(p1, b1), (Pat::Constr { enum_name: "Sc".into(), variant: "Q".into(), args: vec![if second_binds || sibling_leak { Pat::Var(a.into()) } else { Pat::Wild }], qualified: true }, b2)])));
                 }
                 7 => {
                     // closure with a parameter; called after more binders were introduced
